@@ -168,12 +168,12 @@ pub fn dividend_for(r: &mut Rng, w: usize, c: usize, d: &[u64]) -> (Vec<u64>, &'
     let one = BigUint::from(1u32);
     let m = BigUint::from(gn::limb(r) | 1);
     let cand: (BigUint, &'static str) = match c % 8 {
-        0 => (&db - &one, "d_minus_1"),
-        1 => (db.clone(), "equal_d"),
-        2 => (&db + &one, "d_plus_1"),
+        1 => (&db - &one, "d_minus_1"),
+        2 => ((&db << 1) - &one, "2d_minus_1"),
         3 => (&m * &db - &one, "multiple_minus_1"),
-        4 => (&m * &db, "multiple"),
-        5 => ((&db << 1) - &one, "2d_minus_1"),
+        4 => (db.clone(), "equal_d"),
+        5 => (&db + &one, "d_plus_1"),
+        6 => (&m * &db, "multiple"),
         _ => {
             let (v, n) = single(r, w, c);
             return (v, n);
